@@ -182,7 +182,7 @@ func (f *blockdigestFam) Exec(r *hx.Run, op []string) string {
 func (f *blockdigestFam) Gen(r *hx.Run) {
 	r.Rule("blocks of scripted native-contract transactions executed by the real Ledger.ExecuteBlock on a ledger holding the genesis block: the same writes grouped differently into " +
 		"transactions, permuted (per-key order kept), with redundant overwrites, with failing transactions carrying arbitrary writes; distinct non-trivial = distinct base write sequences with >= 2 writes")
-	n := r.Pick(400, 20000)
+	n := r.Pick(150, 5000)
 	for c := 0; c < n; c++ {
 		r.Case(fmt.Sprintf("blk-%d", c))
 		L := r.Rng.Intn(10)
